@@ -1,15 +1,15 @@
 (* C03/Props.v - property-level theorems only (statements + `exact`), each followed by Print Assumptions.
    Tags [FULL]/[PARTIAL]/[REFUTED] are read by bin/check. *)
-From Coq Require Import List ZArith Bool.
-From BLB Require Import C03.Model C03.Proofs.
+From Coq Require Import List ZArith Bool Permutation.
+From BLB Require Import C03.Model C03.Proofs C03.Layer.
 Import ListNotations.
 Open Scope Z_scope.
 
-(* [FULL] for every recorded history (any operations, stamps, outcomes, results, replica states): if the checker
-   accepts it then there is a total order of all acknowledged operations plus some indefinite writes and no
-   definitely rejected operation, consistent with the observed real-time order, whose sequential replay on the
-   revealing state machine yields every returned result, and every recorded replica state is a prefix of the
-   writes of that order *)
+(* [FULL] for every recorded history, any operations, stamps, outcomes, results and replica states: if the checker
+   accepts it then there is a total order containing all acknowledged operations, some of the indefinite writes
+   and no definitely rejected operation, consistent with the observed real-time order, whose sequential replay on
+   the revealing term-conditional state machine yields every returned result, every recorded replica state is a
+   prefix of the writes of that order, and every acknowledged command is in a recorded replica state *)
 Theorem check_history_sound :
   forall h, check_history h = true -> replicated_linearizable h.
 Proof. exact check_history_sound_lemma. Qed.
@@ -21,3 +21,62 @@ Theorem check_history_sound_linearizable :
   forall h, check_history h = true -> linearizable h.
 Proof. intros h H. apply replicated_linearizable_linearizable, check_history_sound_lemma, H. Qed.
 Print Assumptions check_history_sound_linearizable.
+
+(* [FULL] the state machine is revealing: in ANY two linearizations of a history an acknowledged operation has the
+   same number of commands before it, namely the number its result reveals; so the linearization order of the
+   acknowledged commands is unique and no order other than the one the results name can be a witness *)
+Theorem revealing_order_unique :
+  forall h lin1 lin2, linearization h lin1 -> linearization h lin2 ->
+  forall o t1 t2 i j, nth_error lin1 i = Some (o, t1) -> nth_error lin2 j = Some (o, t2) -> oout o = OOk ->
+  wcount (firstn i lin1) = wcount (firstn j lin2).
+Proof. exact revealing_order_unique_lemma. Qed.
+Print Assumptions revealing_order_unique.
+
+(* [PARTIAL] layer model of runLeader and handleCommits, for every event sequence that satisfies the named core
+   contract core_contract, which is assumed and not proved here - entries returned by TakeNewlyCommitted in the
+   loop are in order a prefix of the entries handed to core.Propose in the loop: the queue is never empty when a
+   commit arrives, the k-th committed entry is paired with the k-th enqueued waiter, a Normal entry is paired
+   with the Pending of the request it was proposed for and that Pending receives the result of applying its own
+   command in the FSM state reached by the entries before it, a NOP entry is paired with a VerifyRead group.
+   Membership entries and pendingReconfig are outside the model *)
+Theorem pairing_correct :
+  forall (St R : Type) (apply : St -> Z -> St * R) cur evs,
+  core_contract R cur evs ->
+  let st := run R cur evs in
+  fatal R st = false /\
+  map fst (tofsm R st) = committed R st /\
+  map snd (tofsm R st) = firstn (length (committed R st)) (enqueued R st) /\
+  (forall k cmd tag c, nth_error (tofsm R st) k = Some (ENormal cmd tag, c) ->
+     c = CPending tag /\
+     (exists r, In r (reqs R st) /\ rp r = tag /\ rcmd r = cmd) /\
+     forall s0, In (tag, Applied R (Some (snd (apply (fsm_state St R apply s0 (firstn k (tofsm R st))) cmd))))
+                   (fsm_run St R apply s0 (tofsm R st))) /\
+  (forall k c, nth_error (tofsm R st) k = Some (ENop, c) -> exists g, c = CGroup g).
+Proof. exact pairing_lemma. Qed.
+Print Assumptions pairing_correct.
+
+(* [PARTIAL] same model and contract, Pending ids pairwise distinct: no Pending is concluded twice or concluded
+   while still queued, and once the leader loop has ended every Pending received was concluded exactly once *)
+Theorem pending_concluded_exactly_once :
+  forall (St R : Type) (apply : St -> Z -> St * R) cur evs s0,
+  core_contract R cur evs ->
+  let st := run R cur evs in
+  NoDup (seen R st) ->
+  NoDup (map fst (concl R st ++ fsm_run St R apply s0 (tofsm R st)) ++
+         flat_map (fun ce => pids (fst ce)) (queue R st)) /\
+  (leading R st = false ->
+   Permutation (map fst (concl R st ++ fsm_run St R apply s0 (tofsm R st))) (seen R st)).
+Proof. exact concluded_once_lemma. Qed.
+Print Assumptions pending_concluded_exactly_once.
+
+(* [PARTIAL] same model and contract: a request answered with ErrNodeNotLeader or ErrTermMismatch was never
+   handed to core.Propose, the term filter being evaluated inside the loop *)
+Theorem definite_error_never_proposed :
+  forall (R : Type) cur evs,
+  core_contract R cur evs ->
+  let st := run R cur evs in
+  NoDup (seen R st) ->
+  forall p o, In (p, o) (concl R st) -> (o = ENotLeader R \/ o = ETermMismatch R) ->
+  forall cmd, ~ In (ENormal cmd p) (proposed R st).
+Proof. exact definite_error_never_proposed_lemma. Qed.
+Print Assumptions definite_error_never_proposed.
